@@ -91,6 +91,9 @@ fn nrel(got: C, want: C) -> f64 {
 }
 
 const FWD: f64 = 1e-9;
+/// z^w against exp(w ln z) with ln from std: worst observed 3e-14 on the unchanged tree; 1e-8 would pass an exponent whose imaginary
+/// part of 1e-9 is ignored
+const POW_TOL: f64 = 1e-11;
 const INV: f64 = 1e-8;
 const RANGE_SLACK: f64 = 1e-12;
 
@@ -288,17 +291,19 @@ fn check_point(p: C, acc: &mut Acc) -> Result<(), String> {
     ensure!(nrel(c(zz.asec()), c(z(inv).acos())) <= 1e-9, "asec(z) != acos(1/z)");
     ensure!(nrel(c(zz.acsc()), c(z(inv).asin())) <= 1e-9, "acsc(z) != asin(1/z)");
     // ---- general powers: z^w = exp(w ln z)
-    for wv in [(2.0, 0.0), (0.5, 0.0), (-1.0, 0.0), (0.0, 1.0), (1.5, -2.0), (-3.0, 0.5), (1.0 / 3.0, 0.0)] {
+    // (the exponents include some NEXT TO the real and imaginary axes: an implementation that treats a "numerically real" exponent
+    // as real drops a factor exp(i Im w ln z) of relative size |Im w| |ln z|)
+    for wv in [(2.0, 0.0), (0.5, 0.0), (-1.0, 0.0), (0.0, 1.0), (1.5, -2.0), (-3.0, 0.5), (1.0 / 3.0, 0.0), (2.0, 5e-9), (0.5, -3e-10), (-1.0, 7e-7), (3e-9, 1.0), (1.5, 1e-5)] {
         let want = oexp(mul(wv, l));
         let got = c(zz.pow(&z(wv)));
         let e = nrel(got, want);
         worst("pow_vs_exp_w_ln_z", e, acc);
-        ensure!(e <= FWD * 10.0, "pow({:?}, {:?}) = {:?} but exp(w ln z) = {:?}", p, wv, got, want);
+        ensure!(e <= POW_TOL, "pow({:?}, {:?}) = {:?} but exp(w ln z) = {:?}", p, wv, got, want);
         if wv.1 == 0.0 {
             let gotf = c(zz.powf(wv.0));
             let e = nrel(gotf, want);
             worst("pow_vs_exp_w_ln_z", e, acc);
-            ensure!(e <= FWD * 10.0, "powf({:?}, {}) = {:?} but exp(x ln z) = {:?}", p, wv.0, gotf, want);
+            ensure!(e <= POW_TOL, "powf({:?}, {}) = {:?} but exp(x ln z) = {:?}", p, wv.0, gotf, want);
         }
     }
     // no state may be carried between calls: f(z), f(z') with the same modulus (conjugate, negative, rotated), f(z) again
@@ -367,7 +372,7 @@ fn main() {
     ctx.threshold("forward_exp", FWD);
     ctx.threshold("forward_trig_hyperbolic", FWD);
     ctx.threshold("inverse_roundtrip", INV);
-    ctx.threshold("pow_vs_exp_w_ln_z", FWD * 10.0);
+    ctx.threshold("pow_vs_exp_w_ln_z", POW_TOL);
     ctx.require(&["within 1e-9 of the real axis (both sides of the cuts)", "within 1e-9 of the imaginary axis", "within 1e-5 of a branch point", "quadrant 1", "quadrant 2", "quadrant 3", "quadrant 4", "real-axis points"]);
     let pts = points(ctx.quick());
     ctx.lattice(
